@@ -25,7 +25,7 @@ def schema_actions(repo):
         raise AnalysisError('merge_format.schema.json: decision definition not found')
 
 
-def run(ctx):
+def _run_base(ctx):
     repo, cg = ctx.repo, ctx.cg
     ctx.rule('R09.1', 'every action the Python merger can emit is in the schema enum', floor=7)
     ctx.rule('R09.2', 'decision fields = schema properties + internal fields, and the internal ones are deleted on the one exit (validated) every public producer returns through', floor=6)
@@ -308,3 +308,10 @@ def split_addrange_algebra(ctx, rule):
              '`offset` does not change by (remote items - local items): later similar-insert decisions are built from the wrong remote cell'), node)
     if n_arms < 4:
         raise AnalysisError('_split_addrange: fewer decision arms than expected (%d)' % n_arms)
+
+
+def run(ctx):
+    ctx.rule('R09.7', 'decision building and application never test a diff key / path element by truthiness', floor=6)
+    _run_base(ctx)
+    from ..keys import key_truthiness
+    key_truthiness(ctx, 'R09.7', ['nbdime.merging.'], 'a decision at index 0 / line 0 is pushed to the wrong path or applied at the wrong level')
